@@ -1075,6 +1075,86 @@ void op_random(Ctx& c, const Op& op) {
     }
 }
 
+void op_print(Ctx& c, const Op& op) {
+    // stream output of arrays and scalars (public operator<<), including empty arrays
+    std::ostringstream os;
+    switch (op.iarg(2) % 4) {
+    case 0:
+        os << CTX_R(op.iarg(1));
+        break;
+    case 1:
+        os << CTX_C(op.iarg(1));
+        break;
+    case 2:
+        os << cmplx_t{1.5, -2.0} << arr_real{} << arr_cmplx{};
+        break;
+    default:
+        os << arr_real(int(op.iarg(3) % 3)) << dsplib::arr_cmplx(int(op.iarg(3) % 2));
+        break;
+    }
+    sink(double(os.str().size()));
+}
+
+void op_misc2(Ctx& c, const Op& op) {
+    const arr_real& x = CTX_R(op.iarg(1));
+    const arr_cmplx& z = CTX_C(op.iarg(1));
+    switch (op.iarg(2) % 12) {
+    case 0:
+        sink(dsplib::linspace(-1, 1, size_t(op.iarg(3) % 5)));   // n = 0 must be rejected
+        break;
+    case 1:
+        sink(double(dsplib::from_complex<float>(z).size()));
+        break;
+    case 2:
+        sink(dsplib::to_real(x.to_vec()));
+        break;
+    case 3:
+        sink(dsplib::arange(0.0, double(op.iarg(3) % 20) - 5.0, 0.5));
+        break;
+    case 4: {
+        dsplib::Agc a(1.0, 30.0, int(op.iarg(3) % 4) - 1);   // average_len <= 0 must be rejected
+        sink(a.process(x).out);
+        break;
+    }
+    case 5: {
+        dsplib::HilbertFilter f(3 + int(op.iarg(3) % 200), 0.005 + 0.001 * double(op.iarg(4) % 90));
+        sink(f.process(x));
+        break;
+    }
+    case 6:
+        sink(dsplib::HilbertFilter::design_fir(3 + int(op.iarg(3) % 100), 1.0, 0.01 + 0.001 * double(op.iarg(4) % 90)));
+        break;
+    case 7: {
+        dsplib::FIRResampler r(1 + int(op.iarg(3) % 20), 1 + int(op.iarg(4) % 20));
+        const int g = r.decim_rate();
+        sink(r.process(rvec(3, int64_t(g) * (op.iarg(3) % 5))));
+        sink(r.process(rvec(4, int64_t(g) * 2 + (op.iarg(5) % 2))));   // possibly not a multiple of the granule
+        break;
+    }
+    case 8:
+        sink(dsplib::awgn(x, double(op.iarg(3) % 100) - 20));
+        sink(dsplib::awgn(z, double(op.iarg(3) % 100) - 20));
+        break;
+    case 9: {
+        arr_real y = x;
+        sink(dsplib::medfilt(y, 3 + int(op.iarg(3) % 30)));
+        break;
+    }
+    case 10: {
+        dsplib::MedianFilter f(3 + int(op.iarg(3) % 30));
+        sink(f(x));
+        sink(f(arr_real{}));
+        break;
+    }
+    default: {
+        dsplib::FftFilter f(z.empty() ? arr_cmplx{cmplx_t{1, 0}} : z);
+        sink(f(z));
+        sink(f(x));
+        break;
+    }
+    }
+}
+
 void op_isprime(Ctx&, const Op& op) {
     sink(dsplib::isprime(uint32_t(op.iarg(0))) ? 1.0 : 0.0);
 }
@@ -1238,6 +1318,8 @@ const OpDef CATALOGUE[] = {
   {"detector", c_big, op_detector, true},
   {"tuner_misc", c_n0, op_tuner_misc, true},
   {"dyn_ctor", c_n0, op_dyn_ctor, true},
+  {"print", c_n0, op_print, false},
+  {"misc2", c_big, op_misc2, true},
 };
 constexpr size_t NCAT = sizeof(CATALOGUE) / sizeof(CATALOGUE[0]);
 
@@ -1348,6 +1430,10 @@ Op gen_op(Rng& r, const OpDef& d, bool misuse) {
         op.a = {R(0, 79), R(0, 2), double(r.seed32()), R(0, 14), rel};
     } else if (k == "tuner_misc") {
         op.a = {R(0, 49999), misuse ? R(0, 100000) : 0.0, R(0, 3), R(0, 99)};
+    } else if (k == "print") {
+        op.a = {0, R(0, 3), R(0, 3), R(0, 5)};
+    } else if (k == "misc2") {
+        op.a = {0, R(0, 3), R(0, 11), R(0, 999), R(0, 999), R(0, 9)};
     } else if (k == "dyn_ctor") {
         op.a = misuse ? std::vector<double>{R(0, 69), R(0, 59), R(0, 25), R(0, 99), R(0, 3), R(0, 2)} : std::vector<double>{R(10, 60), R(1, 50), R(2, 22), R(10, 90), R(0, 3), R(0, 2)};
     }
